@@ -23,7 +23,7 @@ import vcheck
 
 LEVEL = "proof"
 
-MODEL_FILES = ["Spv/Binary.v", "Spv/Ops.v", "Spv/Sem.v", "Spv/Catalogue.v", "Spv/CatalogueProofs.v", "Spv/OpTableCheck.v",
+MODEL_FILES = ["IR/SemProps.v", "Wgsl/Sem.v", "Wgsl/SemProps.v", "Spv/Binary.v", "Spv/Ops.v", "Spv/Sem.v", "Spv/Catalogue.v", "Spv/CatalogueProofs.v", "Spv/OpTableCheck.v",
                "Base/Bits32.v", "Base/F32.v", "IR/Values.v"]
 
 # catalogue keys whose template is refuted by a lemma -> the finding it belongs to (known_findings.jsonl `match`)
@@ -287,6 +287,11 @@ def run(ctx):
             meta.append((name + ":" + epname, src, inputs, spvcheck.spv_words(c["spv"])))
     for (name, src, inputs, words), res in zip(meta, spvcheck.run_items(exe_ir, exe_spv, items)):
         account("corpus", name, src, res, inputs, words)
+
+    # ---- WGSL -> IR leg: the WGSL-core reference semantics on the generated AST vs the IR reference
+    #      semantics on what naga lowered from the rendered text (lib/wgslleg.py), plus probes of recorded findings
+    import wgslleg
+    ctx.cov["wgsl_to_ir_leg"] = wgslleg.run_leg(ctx, tools, ctx.scale(40, 600))
 
     ctx.cov["differential"] = stats
     total = sum(v for s in stats.values() for k, v in s.items() if k not in ("rejected_by_naga", "cannot_run"))
